@@ -102,3 +102,54 @@ claim('C14', 'proof',
       'resolution, listed blind spots: captured objects, function-valued variables, lambdas) - '
       'cross-checked by the dynamic oracle; CPython object semantics are not modelled.',
       'DESIGN.md 4 C14')
+
+claim('C01', 'proof',
+      'Lean 4 theorems on py2lean-generated area/centroid/closed-form kernels using a shoelace/Newell lemma library + exact whole-object oracle on the real code',
+      'The generated Polygon2D.area / is_clockwise folds are proved equal to the shoelace '
+      'functional, which is proved start-invariant, reversal-antisymmetric, invariant under the '
+      'generated move/rotate/reflect maps, scaled by k^2, additive over ears, chords and hole '
+      'bridges (the algebraic content of "equals the sum of the triangles of any '
+      'triangulation"); generated mesh triangle/quad kernels (incl. the repaired planar quad), '
+      'centroids, Sphere/Cone/Cylinder/arc closed forms; volume laws on a hand model. Faces '
+      'with holes, meshes, polyfaces in random placements, every cyclic start, are decided by '
+      'an exact rational oracle on the real code.',
+      'Trusted: Lean kernel, py2lean, harness. "shoelace = Lebesgue area" and the divergence '
+      'theorem for general closed polyfaces are used as definitions of the intended quantity, '
+      'not proved; Polyface3D.volume loop, hole merging and Mesh2D.centroid loop are not '
+      'generated (hand model + oracle). One open finding (get_outward_faces) affects volume.',
+      'DESIGN.md 4 C01')
+claim('C16', 'proof',
+      'Lean 4 sibling corollaries on generated 2D and 3D kernels under embedding and any valid plane frame + sibling-agreement oracle',
+      'For the generated kernels of the 2D/3D siblings (mesh face areas/centroids, segment '
+      'length/point_at/midpoint, closest points, intersections, Arc3D delegation to Arc2D, face '
+      'normal fan) the 3D result on embedded / plane-mapped data is proved equal to the image '
+      'of the 2D result, for every valid frame. Whole-object siblings (Polygon2D/Face3D, '
+      'Mesh2D/3D, polylines, subdivision counts, join_segments, clean-up) are compared on the '
+      'real code in the XY plane and random planes.',
+      'Trusted: Lean kernel, py2lean, harness; float rounding outside the model.',
+      'DESIGN.md 4 C16')
+claim('C04', 'proof',
+      'Lean 4 decide over the regenerated fill-selection tables + proved point predicates; exact cell-set specification (Lean Spec/CellBool) against the real sweep',
+      'The five 16-entry tables, the index formula of __select and the inversion flags are '
+      'regenerated from boolean.py and proved to be the truth tables of the operations (every '
+      'cell, uniqueness: any wrong cell fails); point predicates characterised. The Martinez '
+      'sweep and the segment chainer are NOT modelled: the operation itself is decided by an '
+      'executable Lean specification (even-odd cell sets over Q) that certifies the loops '
+      'returned by the real code on lattice polygons (shared edges, corners, nesting, lists) '
+      'and by exact point membership + area identities in general position.',
+      'Trusted: Lean kernel, py2lean, harness, Spec/CellBool (small, lemmas proved). Partial: '
+      'global correctness of the sweep is not a theorem. One open finding (zero-length segment '
+      'on steep edges).',
+      'DESIGN.md 4 C04')
+claim('C06', 'proof',
+      'Lean 4 theorems on generated Plane.__init__/xyz_to_xy/xy_to_xyz/flip/_normal_from_3pts + Newell lemma library; constructor oracle on the real code',
+      'Proved for every input: Plane.__init__ (both x-axis branches, user x-axis) yields an '
+      'orthonormal right-handed frame; 2D<->3D round trips and isometry; the fan sum of '
+      '_normal_from_3pts over a planar loop equals shoelace * n, hence the normal is the '
+      'right-hand-rule normal for every start vertex incl. concave/collinear first corners; '
+      'the enforce_right_hand step leaves a positive shoelace; flip restores it. The '
+      'constructor loop and factories are hand-modelled and tied by an oracle over 11 '
+      'constructors, random and near-axis planes, all cyclic starts, holes of either winding.',
+      'Trusted: Lean kernel, py2lean, harness; sqrt laws as hypotheses (witnessed over R); '
+      '_plane_from_vertices loop and hole merging are hand models.',
+      'DESIGN.md 4 C06')
